@@ -221,7 +221,7 @@ InitState == [ph |-> "idle", disk |-> [p \in {Root} |-> DirNode], rec |-> NoRec,
               pre |-> EmptyFs, v0dirs |-> {}, bfs |-> EmptyFs, live |-> {}, outs |-> EmptyFs,
               claimedF |-> {}, claimedS |-> {}, stack |-> <<>>, vers |-> TDict(<<>>),
               name |-> "", pend |-> NoPend, refuse |-> FALSE, builds |-> 0,
-              targets |-> {}, reused |-> {},
+              targets |-> {}, reused |-> {}, kfdirs |-> {},
               st |-> [q |-> 0, inv |-> 0, invfound |-> 0, reuse |-> 0, sfail |-> 0, commit |-> 0,
                       rollback |-> 0, clean |-> 0, refuse |-> 0, nestedreuse |-> 0, failrec |-> 0]]
 
@@ -339,6 +339,15 @@ CheckEnd(s, e) ==
       ELSE ""
 
 FinalView(s) == SView(s)
+(* final tree, strict and with the latitude of known finding KF-dup-reuse-leaves-dirs (extra empty *)
+(* directories that a rejected concurrent duplicate re-created for the nested outputs of its record) *)
+FinalTreeStrict(s, d) == Remove(d, {CachePath}) = FinalView(s)
+FinalTreeKF(s, d) ==
+  LET dd == Remove(d, {CachePath})
+      extra == DOMAIN dd \ DOMAIN FinalView(s)
+  IN /\ \A p \in extra : dd[p].t = "dir" /\ p \in s.kfdirs
+     /\ Remove(dd, extra) = FinalView(s)
+FinalTreeOK(s, d) == IF "KF-dup-reuse-leaves-dirs" \in OpenKF THEN FinalTreeKF(s, d) ELSE FinalTreeStrict(s, d)
 (* All clauses that the end of a build violates (a set, so that each property *)
 (* can recognise its own clause even when another one fails first).           *)
 BuildEndOrder == <<"NoSpuriousException", "FaultSurfaces", "CacheReplacedOnlyOnSuccess",
@@ -363,7 +372,7 @@ BuildEndFails(s, e) ==
     ELSE C(TEq(e.v, fr.fin.v), "ReturnMatches")
          \cup C(ForeignUntouched(s, d), "ForeignUntouched")
          \cup C(OutputsNotRewritten(s, d), "OutputsNotRewritten")
-         \cup C(Remove(d, {CachePath}) = FinalView(s), "FinalTreeMatches")
+         \cup C(FinalTreeOK(s, d), "FinalTreeMatches")
          \cup C(IsFile(d, CachePath) /\ e.cser > 0, "CacheWritten")
          \cup C(e.tmp, "TempDirRemoved")
   ELSE
@@ -424,6 +433,9 @@ KnownFinding(s, e) ==
      /\ "KF-rollback-ancestor-dirs" \in OpenKF
      /\ ~RollbackStrict(s.pre, FsOf(e.disk), s.rec.cdirs)
   THEN "KF-rollback-ancestor-dirs"
+  ELSE IF e.ev = "build_end" /\ s.ph = "build" /\ e.out = "returned"
+     /\ "KF-dup-reuse-leaves-dirs" \in OpenKF /\ ~FinalTreeStrict(s, FsOf(e.disk))
+  THEN "KF-dup-reuse-leaves-dirs"
   ELSE IF e.ev = "invoke" /\ s.pend.on /\ s.pend.lk.valid /\ ~s.pend.lk.fuzzy /\ s.pend.lk.kfHidden
      /\ "KF-hidden-foreign-target" \in OpenKF
   THEN "KF-hidden-foreign-target"
@@ -440,6 +452,7 @@ Check(s, e) ==
     [] e.ev \in {"bf_end", "sb_end"} -> CheckEnd(s, e)
     [] e.ev = "build_end" -> CheckBuildEnd(s, e)
     [] e.ev = "clean" -> CheckClean(s, e)
+    [] e.ev = "par_fail" -> IF e.deadlock THEN "NoDeadlock" ELSE "NoSpuriousException"
     [] OTHER -> "H:unknown-event"
 
 (* every clause the event violates (only build ends have several) *)
@@ -464,7 +477,7 @@ ApplyRootBegin(s, e) ==
   [s EXCEPT !.ph = "build", !.pre = s.disk, !.bfs = v0, !.v0dirs = Dirs(v0), !.live = {},
             !.outs = EmptyFs, !.claimedF = {}, !.claimedS = {},
             !.stack = <<Frame("root", <<>>, "", TList(<<>>), TDict(<<>>), "")>>,
-            !.pend = NoPend, !.targets = {}, !.reused = {}]
+            !.pend = NoPend, !.targets = {}, !.reused = {}, !.kfdirs = {}]
 
 ApplyQ(s, e) ==
   PushSub([s EXCEPT !.st.q = @ + 1],
@@ -476,9 +489,16 @@ ApplyBegin(s, e) ==
         s1 == [s EXCEPT !.live = @ \cup {e.p}, !.bfs = Remove(@, {e.p})]
         lk == IF serr = "" THEN LookupBF(s1, e.p, e.f, e.args, e.kw)
               ELSE NoLk
+        \* known finding KF-dup-reuse-leaves-dirs: a rejected duplicate whose record would have been
+        \* served from the cache may already have re-created the directories of its nested outputs
+        lkd == IF serr = "RuntimeError" /\ e.p \in s.claimedF
+               THEN LookupBF([s1 EXCEPT !.claimedF = @ \ {e.p}], e.p, e.f, e.args, e.kw) ELSE NoLk
+        kd == IF lkd.found /\ lkd.valid
+              THEN UNION {ProperAnc(x.p) : x \in {y \in AllRecs(lkd.r.subs) : y.k = "bf" /\ ~y.raised}}
+              ELSE {}
     IN [s EXCEPT !.pend = [on |-> TRUE, kind |-> "bf", p |-> e.p, f |-> e.f, args |-> e.args,
                            kw |-> e.kw, cmp |-> e.cmp, serr |-> serr, lk |-> lk],
-                 !.targets = @ \cup {e.p}]
+                 !.targets = @ \cup {e.p}, !.kfdirs = @ \cup kd]
   ELSE
     LET serr == IF SBKeyOf(e.f, e.args, e.kw) \in s.claimedS THEN "RuntimeError" ELSE ""
         lk == IF serr = "" THEN LookupSB(s, e.f, e.args, e.kw)
@@ -548,7 +568,12 @@ ApplyBuildEnd(s, e) ==
     IF fr.fin.out = "return" /\ e.out = "returned" THEN
       LET fv == FinalView(s)
           nrec == [valid |-> TRUE, name |-> s.name, vers |-> s.vers, tree |-> fr.subs,
-                   outs |-> RecOuts(fr.subs), cdirs |-> Dirs(fv) \ s.v0dirs, ser |-> e.cser]
+                   outs |-> RecOuts(fr.subs),
+                   \* under KF-dup-reuse-leaves-dirs the leftover directories are recorded as created
+                   cdirs |-> (Dirs(fv) \ s.v0dirs) \cup
+                             (IF "KF-dup-reuse-leaves-dirs" \in OpenKF
+                              THEN (Dirs(d) \ Dirs(fv)) \cap s.kfdirs ELSE {}),
+                   ser |-> e.cser]
       IN [s EXCEPT !.ph = "idle", !.disk = d, !.rec = nrec, !.stack = <<>>, !.builds = @ + 1,
                    !.st.commit = @ + 1]
     ELSE [s EXCEPT !.ph = "idle", !.disk = d, !.stack = <<>>, !.builds = @ + 1,
